@@ -42,8 +42,12 @@ impl Config {
     /// Parse configuration from TOML string.
     fn from_toml(content: &str) -> Result<Self, toml::de::Error> {
         let raw: RawConfig = toml::from_str(content)?;
-        let exemptions = raw
-            .exemptions
+        // Several spellings can denote one year ("2024", "02024", "+2024"). Visit the keys in a fixed
+        // order so that the entry which counts does not depend on hash order: the plain spelling
+        // sorts last and wins.
+        let mut entries: Vec<(String, Decimal)> = raw.exemptions.into_iter().collect();
+        entries.sort_by(|a, b| a.0.cmp(&b.0));
+        let exemptions = entries
             .into_iter()
             .filter_map(|(k, v)| k.parse::<u16>().ok().map(|year| (year, v)))
             .collect();
